@@ -349,7 +349,10 @@ def compute_gradient_and_dynamics(
 
         target_ndarray = target_derivative
         target_ndarray = target_ndarray.reshape(hs_dim**2)
-        target_ndarray.shape = tuple([1]*num_envs+[hs_dim**2])
+        # the bond legs are closed with the caps of the last step, as in the
+        # forward pass (trivial caps for a process tensor of exactly num_steps)
+        for cap in reversed(_get_caps(process_tensors, num_steps)):
+            target_ndarray = np.multiply.outer(cap, target_ndarray)
         current_node = tn.Node(target_ndarray)
         current_edges = current_node[:]
 
